@@ -35,5 +35,22 @@ let handle = function
     (match c06_render (kind_n k) (List.map op_of ops) with Ok t -> hx t | Err _ -> "Err" | Panic _ -> "Panic" | OutOfFuel -> "OutOfFuel")
   | ["txt"; h] ->
     show_o (fun l -> String.concat "," (List.map hx l)) (c06_txt (txt ". 0 IN TXT x" @ bytes_of_hex h @ [n_of_int 10]))
+  | "rec" :: k :: code :: cl :: ttl :: ow :: fs ->
+    let fld (w : string) : fval =
+      let a = String.sub w 1 (String.length w - 1) in
+      match w.[0] with
+      | 'u' -> VUint (n_of_int (int_of_string a))
+      | 'n' -> VName (labels_of_wire (bytes_of_hex a))
+      | 'q' -> VCharstr (bytes_of_hex a)
+      | 'w' -> VWord (bytes_of_hex a)
+      | 'r' -> VRest (bytes_of_hex a)
+      | 'l' -> VCharstrs (if a = "" then [] else List.map bytes_of_hex (String.split_on_char ',' a))
+      | _ -> failwith "bad field" in
+    let vs = List.map fld fs in
+    let owner = labels_of_wire (bytes_of_hex ow) in
+    let n s = n_of_int (int_of_string s) in
+    (match c06_rec (kind_n k) (n code) owner (n ttl) (n cl) vs with
+     | Ok (t, rb) -> hx t ^ " " ^ (if rb = Ok ((((owner, n ttl), n cl), n code), vs) then "Ok" else "Err")
+     | Err _ -> "SCHEMA-MISMATCH" | Panic _ -> "Panic" | OutOfFuel -> "OutOfFuel")
   | _ -> failwith "bad case line"
 let () = main handle
